@@ -213,6 +213,11 @@ def _run_fresh(ctx, algos):
         mine.append(_digest_leaves(algo.learn(env, pol, job["T"], key=jr.key(job["key"]))))
     code = _CHILD.format(path=[p for p in sys.path if p], jobs=jobs)
     env = dict(os.environ)
+    # a fresh interpreter session in every respect that is not an input of training: in particular another
+    # string-hash seed (the harness pins PYTHONHASHSEED=0 for itself; the child gets a different one)
+    env["PYTHONHASHSEED"] = str(1 + (ctx.seed + 12345) % 4_000_000)
+    ctx.notes["child_pythonhashseed"] = env["PYTHONHASHSEED"]
+    ctx.notes["parent_pythonhashseed"] = os.environ.get("PYTHONHASHSEED")
     p = subprocess.run([sys.executable, "-c", code], capture_output=True, text=True, timeout=1500, env=env)
     line = [l for l in p.stdout.splitlines() if l.startswith("DIGESTS ")]
     if not line:
